@@ -95,6 +95,11 @@ fn pair_scripts() -> Vec<(String, Script)> {
                     Script { name: format!("server expects {:?}: {}", se, n), cexp: Expect::None, sexp: se, rules, window_ms: 2600 }));
         }
     }
+    // truncated expectations: a strict prefix of the right digest string (empty, one byte, half, all but the last
+    // byte) is NOT the digest; a wrong one-byte value as control
+    for ce in [Expect::Truncated(0), Expect::Truncated(2), Expect::Truncated(47), Expect::Truncated(92), Expect::WrongPrefix] {
+        v.push(("corpus".into(), Script { name: format!("client expects {:?} (of the genuine 95-character digest string): untouched", ce), cexp: ce, sexp: Expect::None, rules: vec![], window_ms: 2600 }));
+    }
     // both sides pinned
     v.push(("corpus".into(), Script { name: "both expect the right fingerprint".into(), cexp: Expect::Right, sexp: Expect::Right, rules: vec![], window_ms: 2600 }));
     v
@@ -379,8 +384,8 @@ async fn main() {
         *finals.entry(format!("{}/{}", o.cstate, o.sstate)).or_default() += 1;
         let (fail, known) = pair_oracle(o);
         let mut desc = o.json();
-        desc["certs_to_client"] = json!(o.facts.certs_to_client.iter().map(|c| c[..11].to_string()).collect::<Vec<_>>());
-        desc["expected_by_client"] = json!(o.expected_client_fp.as_ref().map(|c| c[..11].to_string()));
+        desc["certs_to_client"] = json!(o.facts.certs_to_client.iter().map(|c| c.chars().take(11).collect::<String>()).collect::<Vec<_>>());
+        desc["expected_by_client"] = json!(o.expected_client_fp.as_ref().map(|c| c.chars().take(11).collect::<String>()));
         desc["ske_signature_ok"] = json!(o.facts.ske_sig_ok);
         desc["certs_to_server"] = json!(o.facts.certs_to_server.len());
         out.push(Case { term: format!("KPair ({})", o.term()), desc, oracle_fail: fail, known,
@@ -391,22 +396,28 @@ async fn main() {
     use dtls_hs::impostor::{self, Mode};
     let reps = if args.tier == "thorough" { 6 } else { 2 };
     let mut jobs = vec![];
+    for (m, n) in [(Mode::Genuine, 0usize), (Mode::Genuine, 2), (Mode::Genuine, 92), (Mode::OwnCert, 0), (Mode::OwnCert, 2), (Mode::StolenCert, 47)] {
+        jobs.push(tokio::spawn(impostor::run_pinned(m, Some(n))));
+    }
     for _ in 0..reps { for m in [Mode::Genuine, Mode::StolenCert, Mode::OwnCert, Mode::BadFinished, Mode::ChainStolen, Mode::TruncatedFinished(0), Mode::TruncatedFinished(6), Mode::TruncatedFinished(11)] { jobs.push(tokio::spawn(impostor::run(m))); } }
     let mut imp_stat = std::collections::BTreeMap::<String, usize>::new();
     for (i, j) in jobs.into_iter().enumerate() {
         let o = j.await.expect("impostor task");
         *imp_stat.entry(format!("{:?}:{}", o.mode, o.client_state)).or_default() += 1;
         let fail = match o.mode {
+            Mode::Genuine if o.pin_prefix.is_some() => if o.client_state == 2 || o.client_exported {
+                    Some(format!("client pinned to only the first {} characters of the digest string reached Connected: the expected value is not the certificate's digest", o.pin_prefix.unwrap())) }
+                else if o.client_state != 3 { Some(format!("truncated pin did not end Failed (state {})", o.client_state)) } else { None },
             Mode::Genuine => if o.client_state == 2 && o.client_exported && o.app_from_impostor_delivered && o.client_finished_ok == Some(true) { None }
                 else { Some(format!("control failed: the harness-played server holding the pinned key could not connect a rustrtc client (state {}, client Finished ok {:?})", o.client_state, o.client_finished_ok)) },
             _ => if o.client_state == 2 || o.client_exported || o.app_from_impostor_delivered {
                     Some(format!("client authenticated an impostor ({:?}): state {}, exported {}, application data accepted {}", o.mode, o.client_state, o.client_exported, o.app_from_impostor_delivered))
                 } else if o.client_state != 3 { Some(format!("impostor ({:?}) presented itself in sequence but the client did not end Failed (state {})", o.mode, o.client_state)) } else { None },
         };
-        out.push(Case { term: "-".into(), desc: json!({"impostor": format!("{:?}", o.mode), "client_state": o.client_state, "exported": o.client_exported,
+        out.push(Case { term: "-".into(), desc: json!({"impostor": format!("{:?}", o.mode), "pinned_prefix_chars": o.pin_prefix, "client_state": o.client_state, "exported": o.client_exported,
                 "impostor_sent_finished": o.impostor_finished_sent, "client_finished_verified_by_impostor": o.client_finished_ok,
                 "app_data_from_impostor_delivered": o.app_from_impostor_delivered, "elapsed_s": o.elapsed}),
-            oracle_fail: fail, known: None, nontrivial: true, key: format!("impostor {:?} #{}", o.mode, i), kind: "impostor".into() });
+            oracle_fail: fail, known: None, nontrivial: true, key: format!("impostor {:?} {:?} #{}", o.mode, o.pin_prefix, i), kind: "impostor".into() });
     }
     // pinned fingerprint against an independent server implementation (webrtc-rs dtls)
     {
